@@ -11,18 +11,7 @@ CONSTANTS MaxN, WithFaults
 VARIABLES st, ok
 vars == <<st, ok>>
 Init == st = Fresh /\ ok = TRUE
-Huge == {[k |-> "max", n |-> d] : d \in 0..1}
-Bounds == {N(x) : x \in 0..(MaxN + 1)} \cup Huge
-OKs == IF WithFaults THEN {<<TRUE, TRUE>>, <<FALSE, TRUE>>, <<TRUE, FALSE>>} ELSE {<<TRUE, TRUE>>}
-OpSet ==
-    {[op |-> "alloc", a |-> a, nm |-> N(n), sz |-> 4, ok |-> k] : a \in OBJ, n \in {0, 2, MaxN}, k \in OKs}
-    \cup {[op |-> "alloc", a |-> a, nm |-> h, sz |-> z, ok |-> <<TRUE, TRUE>>] : a \in OBJ, h \in Huge, z \in {1, 4}}
-    \cup {[op |-> "set", a |-> a, e |-> e, enm |-> MaxN, sz |-> 4, ok |-> k] : a \in OBJ, e \in 1..2, k \in OKs}
-    \cup {[op |-> "slice", a |-> a, beg |-> b, end |-> e, s |-> s] : a \in OBJ, s \in OBJ, b \in Bounds, e \in Bounds}
-    \cup {[op |-> "unslice", s |-> s, a |-> a] : s \in OBJ, a \in OBJ}
-    \cup {[op |-> "reset", a |-> a] : a \in OBJ} \cup {[op |-> "release", a |-> a, nob |-> x] : a \in OBJ, x \in BOOLEAN}   \* nob: NULL out-parameter (documented as allowed)
-    \cup {[op |-> "at", a |-> a, i |-> i] : a \in OBJ, i \in Bounds}
-    \cup {[op |-> "data", a |-> a] : a \in OBJ} \cup {[op |-> "size", a |-> a] : a \in OBJ}
+OpSet == OpSetF(MaxN, WithFaults)
 Tgt(pre, s) == [a \in OBJ |-> IF s.obj[a].t > Len(pre.desc) THEN NEWB ELSE s.obj[a].t]
 Step(o) == LET r == Apply(st, o)
                post == Canon(r.m.s) IN
